@@ -1,8 +1,9 @@
 /-
 Model of `HasTraits.sync_trait` and its two change handlers
-(`traits/has_traits.py:2646-2799` of the pinned tree, i.e. the code *after* the
-fixes 7706111 — extended-slice events propagate — and d1bf550 — the items
-handler returns early when no partner is left).
+(`traits/has_traits.py:2646-2807` of the pinned tree, i.e. the code *after* the
+fixes 7706111 — extended-slice events propagate —, d1bf550 — the items handler
+returns early when no partner is left — and the repair of F61 — the items
+handler is registered with every `List` partner and removed with the last one).
 
 * The `__sync_trait__` tables of all objects are one insertion-ordered list of
   `Edge`s: `⟨(o, n), (o', n')⟩` is the entry `(id(o'), n') ↦ (weakref(o'), n')`
@@ -221,23 +222,26 @@ def World.assign [DecidableEq α] (E : Env α) (w : World α) (p : Pair) (v : AV
 def World.mutate (E : Env α) (w : World α) (p : Pair) (op : Op α) : Res α :=
   finish w (cascade (applyMutate E) w.budget w p op)
 
-/-- has_traits.py:2725-2740, one direction of `sync_trait(…, remove=False)`:
+/-- has_traits.py:2731-2748 (with the repair of finding F61), one direction of
+`sync_trait(…, remove=False)`:
 ```
 if key not in dic:
     if len(dic) == 0:
         self._on_trait_change(self._sync_trait_modified, trait_name)
-        if is_list: self._on_trait_change(self._sync_trait_items_modified, trait_name + "_items")
+    if is_list:
+        self._on_trait_change(self._sync_trait_items_modified, trait_name + "_items")
     dic[key] = value
     setattr(object, alias, getattr(self, trait_name))
 ```
 `is_list` = both traits are `List` traits (2683).  `_sync_trait_modified` is
 registered exactly while the table entry exists — or stays registered after a
 partner died, when it returns at once — so it needs no state of its own;
-`on_trait_change` does not register the same handler twice.  The entry and the
-handlers stay when the `setattr` raises. -/
+`on_trait_change` does not register the same handler twice, so the items handler
+is registered with every `List` partner, whichever partner came first.  The
+entry and the handlers stay when the `setattr` raises. -/
 def World.register (E : Env α) (w : World α) (p q : Pair) : World α :=
   { w with edges := w.edges ++ [(⟨p, q⟩ : Edge)],
-           hooked := if (w.partners p).isEmpty && E.isList p.2 && E.isList q.2 && !(decide (p ∈ w.hooked))
+           hooked := if E.isList p.2 && E.isList q.2 && !(decide (p ∈ w.hooked))
                      then p :: w.hooked else w.hooked }
 
 def World.linkOne [DecidableEq α] (E : Env α) (w : World α) (p q : Pair) : Res α :=
@@ -253,14 +257,18 @@ def World.link [DecidableEq α] (E : Env α) (w : World α) (p q : Pair) (both :
   | some _ => r
   | none => if both then r.world.linkOne E q p else r
 
-/-- has_traits.py:2687-2711: `if key in dic: del dic[key]`, and when it was the
-last key the table entry and the handlers go — the items handler only
-`if is_list`; mutual = the same on the partner. -/
+/-- has_traits.py:2687-2717 (with the repair of finding F61):
+`if key in dic: del dic[key]`; when it was the last key the table entry and
+`_sync_trait_modified` go; the items handler goes when a `List` partner was
+removed and no `List` partner is left
+(`if is_list and not any(other()._is_list_trait(other_alias) for other, other_alias in dic.values())`),
+whatever other partners remain; mutual = the same on the partner. -/
 def World.unlinkOne (E : Env α) (w : World α) (p q : Pair) : World α :=
   if (⟨p, q⟩ : Edge) ∈ w.edges then
     let es := w.edges.filter (fun e => e ≠ (⟨p, q⟩ : Edge))
     { w with edges := es,
-             hooked := if (es.filter (fun e => e.src = p)).isEmpty && E.isList p.2 && E.isList q.2
+             hooked := if E.isList p.2 && E.isList q.2 &&
+                          !(es.any (fun e => decide (e.src = p) && E.isList e.dst.2))
                        then w.hooked.filter (· ≠ p) else w.hooked }
   else w
 
